@@ -1,7 +1,8 @@
 (* C20 -- versioning.  Definitions only.
 
    A versioned plain (eager) class with the fixture columns of Model/Events.v
-   (a = IntCol(unique=True), b = StringCol(default=None), c = IntCol(default=7);
+   (a = IntCol(unique=True), b = StringCol(default=None), c = ForeignKey(..., default=7)
+   -- an integer column for everything modelled here, keyed `cID` in asDict();
    the UNIQUE constraint gives the database a reason to refuse a write that
    passed validation) and the
    version table that sqlobject/versioning synthesises for it (masterID, the
@@ -36,6 +37,7 @@ Inductive vop :=
 | VCreate (kw : list (col * val))
 | VAssign (m : Z) (c : col) (v : val)        (* master.c = v *)
 | VSet (m : Z) (kw : list (col * val))       (* master.set( **kw) *)
+| VSetBad (m : Z) (kw : list (col * val))    (* master.set(zz=1, **kw): zz is neither a column nor an attribute *)
 | VRestore (vid : Z).                        (* VersionClass.get(vid).restore() *)
 
 Inductive voutcome := VDone | VExn (e : exn) | VNoHandle.
@@ -97,6 +99,22 @@ Definition vupdate (st : vstate) (m : Z) (kw : kwargs) : vstate * voutcome :=
               hist := hist_push m (row_update w r) (hist st) |}, VDone)
   end.
 
+(* set() with a keyword it does not know: RowUpdateSignal goes out first with
+   the whole dict -> Versioning.rowUpdate validates the column values (may
+   raise: nothing happened) and archives the current values; then set()
+   validates the columns and raises TypeError for the unknown keyword before
+   any UPDATE: the version row stays *)
+Definition vrefuse (st : vstate) (m : Z) (kw : kwargs) : vstate * voutcome :=
+  match row_of m (m_tbl st) with
+  | None => (st, VNoHandle)
+  | Some r =>
+      if negb (validate kw) then (st, VExn XInvalid)
+      else
+        ({| m_tbl := m_tbl st; m_next := m_next st;
+            v_tbl := v_tbl st ++ [{| v_id := v_next st; v_master := m; v_vals := r |}]; v_next := v_next st + 1;
+            hist := hist st |}, VExn XTypeError)
+  end.
+
 Definition vstep (st : vstate) (o : vop) : vstate * voutcome :=
   match o with
   | VCreate kw0 =>
@@ -113,6 +131,7 @@ Definition vstep (st : vstate) (o : vop) : vstate * voutcome :=
       end
   | VAssign m c v => vupdate st m [(c, v)]
   | VSet m kw0 => vupdate st m (mk_kw kw0)
+  | VSetBad m kw0 => vrefuse st m (mk_kw kw0)
   | VRestore vid =>
       match find_version vid (v_tbl st) with
       | None => (st, VExn XNotFound)
@@ -130,13 +149,15 @@ Fixpoint vrun (st : vstate) (ops : list vop) : list vrec :=
   end.
 Definition vfinal (st : vstate) (ops : list vop) : vstate := fold_left (fun s o => fst (vstep s o)) ops st.
 
-(* the histories the remaining open finding excludes: those in which the
-   DATABASE refuses an update (assignment, set or restore) that passed
-   validation.  Updates refused by validation, failing creations, restores of
-   unknown versions and unknown masters may occur. *)
+(* the histories the open findings exclude: those in which an update
+   (assignment, set or restore) is refused AFTER its RowUpdateSignal went out
+   and its values passed validation -- by the database (UNIQUE), or by set()
+   itself for an unknown keyword.  Updates refused by validation, failing
+   creations, restores of unknown versions and unknown masters may occur. *)
 Definition db_refused (w : vrec) : bool :=
   match w_op w, w_out w with
   | VCreate _, _ => false
+  | VSetBad _ _, VExn XTypeError => true
   | _, VExn XDuplicate => true
   | _, _ => false
   end.
@@ -147,7 +168,7 @@ Definition vguard (ops : list vop) : bool := vguard_from vinit ops.
 (* the master an update operation addresses in a given state *)
 Definition vtarget (st : vstate) (o : vop) : option Z :=
   match o with
-  | VAssign m _ _ | VSet m _ => Some m
+  | VAssign m _ _ | VSet m _ | VSetBad m _ => Some m
   | VRestore vid => match find_version vid (v_tbl st) with Some ver => Some (v_master ver) | None => None end
   | VCreate _ => None
   end.
